@@ -771,6 +771,26 @@ func main() {
 		w("\nDefinition %s_retain_remove_guards : list string := [%s].\n", tr.pfx, strings.Join(q, "; "))
 	}
 
+	// ---- how the close sequence gets the reader out of its read
+	w("\nDefinition reader_shape : list (string * list string) := [\n")
+	ros := []co{
+		{"connection/reader.go", "routine", []string{".conn.SetReadDeadline", "recv s.quit", ".readPacket", ".processIncoming"}},
+		{"connection/connection.go", "onConnectionCloseStage2", []string{"close s.quit", ".conn.SetReadDeadline", ".rx.shutdown"}},
+	}
+	for i, c := range ros {
+		ts := callOrder(parse(filepath.Join(*repo, c.file)), c.fn, c.want)
+		q := make([]string, len(ts))
+		for j, t := range ts {
+			q[j] = "\"" + t + "\""
+		}
+		sep := ";"
+		if i == len(ros)-1 {
+			sep = ""
+		}
+		w("  (\"%s\", [%s])%s\n", c.fn, strings.Join(q, "; "), sep)
+	}
+	w("].\n")
+
 	// ---- order of the accesses of an outbound acknowledgement and of the writer's pop
 	w("\nDefinition ack_shape : list (string * list string) := [\n")
 	aos := []co{
